@@ -1,6 +1,7 @@
 // C03 cv_xv: condition_variable with mutex and spinlock under the controlled multi-vCPU scheduler.
 // ops (per photon thread):  W single-shot waiter (lock; wait(lock); unlock)   P predicate waiter (while(!pred) wait)
 //   T single-shot timed waiter (40us)   N lock;pred=1;unlock;notify_one   A lock;pred=1;unlock;notify_all
+//   i<k> thread_interrupt(program thread k, EINTR)
 //   h lock;pred=1;notify_one;yield;yield;unlock   n lock;pred=1;notify_one;unlock (inside)   a ... notify_all inside      u notify_one without touching the lock   y yield
 #define protected public
 #define private public
@@ -21,11 +22,16 @@ struct St {
     bool begun[16] = {false}, returned[16] = {false}, owed_all[16] = {false}, timed[16] = {false};
     int never_woken = 0;
     int ret[16]; int owed_one = 0; std::string log; bool woken[16] = {false};
+    int legit_intr[16] = {0}, any_intr[16] = {0};   // interrupts sent to k while it was waiting and not yet notified / at all
     bool overlap[16] = {false}; std::vector<int> pending_ids;     // notify_one notifiers whose snapshot..notify span overlapped another one's: the per-call claim is void (the aggregate claim in final_oracle stays)
     int pending_one = 0;       // notify_one notifiers that have taken their snapshot (under the lock) but not yet notified: each may take one of the waiters a later notifier counted
 };
 static St* G;
-static void LOCK() { if (G->use_mutex) { if (G->m.lock() != 0) pmc_violation("user-lock-failed", "mutex lock failed"); } else G->s.lock(); }
+static void LOCK() {
+    if (!G->use_mutex) { G->s.lock(); return; }
+    for (int k = 0; k < 8; k++) { if (G->m.lock() == 0) return; if (errno != EINTR) break; }      // an interrupt op may land while we queue on the user's mutex: retry
+    pmc_violation("user-lock-failed", "mutex lock failed (errno %d)", errno);
+}
 static void UNLOCK() { if (G->use_mutex) G->m.unlock(); else G->s.unlock(); }
 static bool HELD() { return G->use_mutex ? G->m.owner.load() == CURRENT : G->s.locked(); }
 static int WAIT(Timeout t) { return G->use_mutex ? G->cv.wait(G->m, t) : G->cv.wait(G->s, t); }
@@ -48,8 +54,19 @@ static int snapshot(bool all, bool count_only = false) {
 
 static void body(mvprog::PT& p) {
     int me = p.idx;
-    for (char op : p.ops) {
+    for (size_t oi = 0; oi < p.ops.size(); oi++) {
+        char op = p.ops[oi];
         if (op == 'y') { thread_yield(); continue; }
+        if (op == 'i') {
+            int k = p.ops[++oi] - '0';
+            if (k < (int)G->prog.pts.size() && G->prog.pts[k].th && !G->prog.pts[k].done) {
+                G->any_intr[k]++;
+                if (G->begun[k] && !G->returned[k] && !G->woken[k]) { G->legit_intr[k]++; G->timed[k] = true; }     // it is waiting and nobody notified it yet: this may end its wait (like a timed waiter it makes no claims from now on)
+                thread_interrupt(G->prog.pts[k].th, EINTR);
+            }
+            G->log += char('a' + me); G->log += 'i'; p.result += "i";
+            continue;
+        }
         if (op == 'p') { int npad = pmc_choose(3, PMC_PROG, 0, "pad yields"); for (int kk = 0; kk < npad; kk++) thread_yield(); continue; }   // every arrival order on one vCPU
         if (op == 'q') { if (pmc_choose(2, PMC_PROG, 0, "pad yield")) thread_yield(); continue; }
         if (op == 'W' || op == 'T' || op == 'P') {
@@ -80,6 +97,14 @@ static void body(mvprog::PT& p) {
             }
             if (!HELD()) pmc_violation("wait-returned-without-lock", "wait() returned %d to thread %d but the lock is not held", r, me);
             G->ret[me] = r;
+            if (r != 0 && e == EINTR && G->any_intr[me]) {
+                // interrupted: legitimate only if the interrupt arrived while this thread was waiting and had not been notified yet
+                // (a notification that was already delivered must not be turned into a failure by a later interrupt). One vCPU only:
+                // across vCPUs the harness cannot order the interrupt against the notification.
+                if (G->prog.nos == 1 && G->legit_intr[me] == 0)
+                    pmc_violation("notification-overwritten-by-interrupt", "wait() by thread %d returned -1/EINTR although every interrupt sent to it came after it had been notified (or before it waited)", me);
+                G->timed[me] = true;      // from here on this waiter makes no claims (it left by itself)
+            } else
             if (r != 0) {
                 if (!(op == 'T' && e == ETIMEDOUT && mv_now() >= t0 + TMO))
                     pmc_violation("wait-failed-without-reason", "wait() by thread %d (op %c) returned %d errno=%d at +%llu us", me, op, r, e, (unsigned long long)(mv_now() - t0));
@@ -140,7 +165,7 @@ void pmc_run(const char* config) {
     pmc_window(1);     // generated programs are explorer choices
     // (one op per thread: the oracle's bookkeeping is per single-shot thread; no 'h' with the spinlock: holding a spinlock across a yield on
     //  one vCPU live-locks by construction)
-    if (st.prog.parse_or_generate(prog, st.use_mutex ? std::vector<std::string>{"W", "T", "N", "A", "h", "n", "a", "u"} : std::vector<std::string>{"W", "T", "N", "A", "n", "a", "u"})) st.log = st.prog.generated + " ";
+    if (st.prog.parse_or_generate(prog, st.use_mutex ? std::vector<std::string>{"W", "T", "N", "A", "h", "n", "a", "u", "i0", "i1"} : std::vector<std::string>{"W", "T", "N", "A", "n", "a", "u", "i0"})) st.log = st.prog.generated + " ";
     st.prog.early_join = strstr(extra, "early") != nullptr;
     pmc_window(0);
     mv_init(); mvp::use_fast_stacks(true);
@@ -179,6 +204,8 @@ static const PmcConfig CFG[] = {
     {"m:T,W|N:tdev", 3, {1,2}, {1,1}, {0,0}, {2,3}, "the head waiter times out while the notifier is between reading the queue head and locking it: the next waiter must be woken"},
     {"m:W,W|N|N",    3, {1,2}, {0,0}, {0,0}, {0,0}, "two notifiers on two vCPUs notify outside the lock at the same time: both waiters must be woken"},
     {"s:W,W|N|N",    2, {1,2}, {0,0}, {0,0}, {0,0}, ""},
+    {"m:pW,pN,ppi0", 3, {0,0}, {0,0}, {0,0}, {0,0}, "one vCPU: an interrupt lands on a waiter before / after it was notified (every arrival order)"},
+    {"m:pW,pW,pA,ppi0i1", 3, {0,0}, {0,0}, {0,0}, {0,0}, ""},
     {"m:gen3x1",     3, {0,0}, {0,0}, {0,0}, {0,0}, "generated: every 3-thread program with one op each from {W,T,N,A,h,n,a,u}, every arrival order"},
     {"s:gen3x1",     3, {0,0}, {0,0}, {0,0}, {0,0}, ""},
     {"m:gen4x1",     2, {0,0}, {0,0}, {0,0}, {0,0}, ""},
